@@ -806,6 +806,7 @@ fn mode_programs(args: &Args, mode: &str) {
     let seed = args.u64("seed", 1);
     let nprog = args.u64("programs", 100);
     let nsched = args.u64("schedules", 10);
+    let big_every = args.u64("big-every", 12).max(1);
     let out_path = args.str("out", "");
     let mut report = Report { engine: format!("conmon-{}", mode), ..Default::default() };
     let mut master = Rng::new(seed ^ 0xC0C0);
@@ -817,7 +818,7 @@ fn mode_programs(args: &Args, mode: &str) {
     let strategies: &[&str] = if mode == "park" { &["park"] } else { &["uniform", "sticky", "pct", "starve"] };
     'outer: for pi in 0..nprog {
         let mut rng = master.fork();
-        let prog = if mode == "park" { gen_park_prog(&mut rng) } else if mode == "stress" && rng.chance(1, 6) { gen_big_prog(&mut rng) } else { gen_prog(&mut rng) };
+        let prog = if mode == "park" { gen_park_prog(&mut rng) } else if mode == "stress" && rng.chance(1, big_every) { gen_big_prog(&mut rng) } else { gen_prog(&mut rng) };
         let mut nontrivial = false;
         for si in 0..nsched {
             let sname = strategies[(si as usize) % strategies.len()];
